@@ -7,6 +7,7 @@ import (
 	"path/filepath"
 	"strings"
 	"sync"
+	"sync/atomic"
 	"time"
 
 	"github.com/fsnotify/fsnotify"
@@ -21,11 +22,11 @@ func init() {
 		ID:    "C14",
 		Level: "exploration",
 		Rule: "E-twin x k: (1) cap(Events) of NewBufferedWatcher(n) == n for n in {0,1,2,4,...,65536} and 0 for NewWatcher; (2) 2-4 measured Watchers with different buffer sizes on the same directories plus 1-4 interfering Watchers doing PRNG Add/Remove/Close/re-create, " +
-			"all fed by one sequential syscall driver; every measured Watcher's stream must equal the translated kernel log (hence each other); (3) a buffered Watcher with no consumer must hold exactly n<=cap distinct events (len(Events)==n) and deliver them intact and in order when drained; and cap+1 IDENTICAL events, each generated only after the previous one was read out of the kernel queue (FIONREAD==0), must all be delivered. " +
+			"all fed by one sequential syscall driver; every measured Watcher's stream must equal the translated kernel log (hence each other); (3) a buffered Watcher with no consumer must hold exactly n<=cap distinct events (len(Events)==n) and deliver them intact and in order when drained; and cap+1 IDENTICAL events, each generated only after the previous one was read out of the kernel queue (FIONREAD==0), must all be delivered; (4) a Watcher is closed while its reader is held (verif yield point at the entry of handleEvent, no lock held) between two records of a batch whose next record is the rename of a watched file; a second Watcher created right away gets the same descriptor number and watch descriptors: its kernel marks, WatchList and Write events must be those of its own history. " +
 			"distinct_nontrivial = distinct (history, watcher configuration) runs with >=1 compared event",
 		Assumptions: []string{"kernel shadow = ground truth, one shadow per measured Watcher", "part (3) polls len(Events); if the count is never reached the goroutine dump decides (reader idle in read(2) => events were dropped), a busy reader is inconclusive"},
 		Batches:     func(t string) int { return map[string]int{"quick": 12, "thorough": 48}[t] },
-		MustObserve: []string{"capacities_checked", "measured_watchers", "interfering_watcher_actions", "absorb_cases", "events_received"},
+		MustObserve: []string{"capacities_checked", "measured_watchers", "interfering_watcher_actions", "absorb_cases", "events_received", "fd_reuse_cases"},
 		Run:         runC14,
 	})
 }
@@ -52,6 +53,15 @@ func runC14(c *core.Ctx) {
 		}
 		dir, done := caseDir(c, 2000+i)
 		c14Absorb(c, rng, dir, i)
+		done()
+	}
+	for i := 0; i < c.Pick(6, 40); i++ {
+		rng, ok := c.CaseRng(4000+i, "close with the reader mid-batch, descriptor number reused")
+		if !ok {
+			continue
+		}
+		dir, done := caseDir(c, 4000+i)
+		c14FdReuse(c, rng, dir, i)
 		done()
 	}
 	for i := 0; i < m; i++ {
@@ -173,7 +183,7 @@ func c14Multi(c *core.Ctx, rng *rand.Rand, dir string, idx int) {
 			<-o.done
 		}
 	}()
-	names := twin.Names(rng, 5, false)
+	names := twin.Names(rng, 5, idx%3 == 0) // every third run: names at the record-padding boundaries (15/16, 239/240, 255)
 	steps := c.Pick(150, 400)
 	drainAll := func(desc string) {
 		for _, s := range ss[1:] {
@@ -396,5 +406,187 @@ func c14AbsorbIdentical(c *core.Ctx, rng *rand.Rand, dir string, idx int) {
 	c.Distinct("absorb-identical", sz)
 	if got != n {
 		c.Violate("identical-events-dropped", fmt.Sprintf("NewBufferedWatcher(%d): %d writes to one file, each made only after the previous notification had been read out of the kernel queue (so none could be merged there); %d Write events delivered", sz, n, got), nil)
+	}
+}
+
+// c14FdReuse: a Watcher is closed while its reader goroutine is between two records of a batch (the reader is
+// held at the existing yield point at the entry of handleEvent - a point where the scheduler may preempt it, no lock
+// held). Close releases the descriptor NUMBER; a Watcher created next gets the same number and its watch
+// descriptors start at 1 again. Whatever the closed Watcher's reader still does with its remembered number
+// (inotify_rm_watch for a renamed path, inotify_add_watch in recursive mode) then hits the OTHER Watcher.
+// Oracle: the second Watcher's kernel marks, WatchList and event stream are those of its own history.
+func c14FdReuse(c *core.Ctx, rng *rand.Rand, dir string, idx int) {
+	base := filepath.Join(dir, "t")
+	os.MkdirAll(base, 0o755)
+	var armed, parkedOnce int32
+	parked := make(chan struct{})
+	release := make(chan struct{})
+	fsnotify.VerifSetHooks(&fsnotify.VerifHooks{Point: func(name string, n int) {
+		if name == "inotify.handle" && atomic.CompareAndSwapInt32(&armed, 1, 0) {
+			atomic.StoreInt32(&parkedOnce, 1)
+			close(parked)
+			<-release
+		}
+	}})
+	defer fsnotify.VerifSetHooks(nil)
+	bufA := []int{0, 1, 64, 4096}[rng.Intn(4)]
+	A, err := fsnotify.NewBufferedWatcher(uint(bufA))
+	if err != nil {
+		c.Broken(err.Error())
+		return
+	}
+	go func() {
+		for range A.Errors {
+		}
+	}()
+	go func() {
+		for range A.Events {
+		}
+	}()
+	// A watches nA files; the victim record is the rename of the one with watch descriptor k
+	nA := 2 + rng.Intn(4)
+	var af []string
+	for i := 0; i < nA; i++ {
+		p := filepath.Join(base, fmt.Sprint("a", i))
+		os.WriteFile(p, nil, 0o644)
+		if err := A.Add(p); err != nil {
+			c.Broken(err.Error())
+			return
+		}
+		af = append(af, p)
+	}
+	k := rng.Intn(nA)
+	fdA := fsnotify.VerifInotifyFd(A)
+	atomic.StoreInt32(&armed, 1)
+	os.Rename(af[k], af[k]+".moved") // IN_MOVE_SELF for A's watch descriptor k+1
+	select {
+	case <-parked:
+	case <-time.After(twin.WatchdogTimeout):
+		close(release)
+		A.Close()
+		c.Inconclusive("fd-reuse: the reader never reached the yield point")
+		return
+	}
+	closed := make(chan struct{})
+	go func() { A.Close(); close(closed) }()
+	// wait until A's descriptor number is free again (Close has closed the file; it now waits for the reader)
+	free := false
+	for p := 0; p < 200000; p++ {
+		if l, err := os.Readlink(fmt.Sprintf("/proc/self/fd/%d", fdA)); err != nil || l != "anon_inode:inotify" {
+			free = true
+			break
+		}
+		time.Sleep(50 * time.Microsecond)
+	}
+	if !free {
+		close(release)
+		<-closed
+		c.Inconclusive("fd-reuse: Close did not release the descriptor while the reader was held")
+		return
+	}
+	B, err := fsnotify.NewWatcher()
+	if err != nil {
+		close(release)
+		c.Broken(err.Error())
+		return
+	}
+	defer B.Close()
+	var bmu sync.Mutex
+	var bev []fsnotify.Event
+	bdone := make(chan struct{})
+	go func() {
+		defer close(bdone)
+		ev, er := B.Events, B.Errors
+		for ev != nil || er != nil {
+			select {
+			case e, ok := <-ev:
+				if !ok {
+					ev = nil
+					continue
+				}
+				bmu.Lock()
+				bev = append(bev, e)
+				bmu.Unlock()
+			case _, ok := <-er:
+				if !ok {
+					er = nil
+				}
+			}
+		}
+	}()
+	sameNumber := fsnotify.VerifInotifyFd(B) == fdA
+	var bf []string
+	for i := 0; i < nA+1; i++ {
+		p := filepath.Join(base, fmt.Sprint("b", i))
+		os.WriteFile(p, nil, 0o644)
+		if err := B.Add(p); err != nil {
+			close(release)
+			c.Broken(err.Error())
+			return
+		}
+		bf = append(bf, p)
+	}
+	sd := filepath.Join(base, "bs")
+	os.Mkdir(sd, 0o755)
+	B.Add(sd)
+	close(release) // the closed Watcher's reader goes on with its batch
+	select {
+	case <-closed:
+	case <-time.After(twin.WatchdogTimeout):
+		c.Inconclusive("fd-reuse: Close of the first Watcher did not return: " + hangClass(core.AllStacks()))
+		return
+	}
+	c.Count("fd_reuse_cases", 1)
+	if sameNumber {
+		c.Count("fd_reuse_second_watcher_got_the_same_descriptor_number", 1)
+	}
+	// B's own history: one write per watched file, then a sentinel
+	for _, p := range bf {
+		fd, err := unix.Open(p, unix.O_WRONLY|unix.O_APPEND, 0)
+		if err == nil {
+			unix.Write(fd, []byte("x"))
+			unix.Close(fd)
+		}
+	}
+	sent := filepath.Join(sd, "sentinel")
+	os.WriteFile(sent, nil, 0o644)
+	ok := false
+	for p := 0; p < 400000 && !ok; p++ {
+		bmu.Lock()
+		for _, e := range bev {
+			if e.Name == sent {
+				ok = true
+			}
+		}
+		bmu.Unlock()
+		if !ok {
+			time.Sleep(50 * time.Microsecond)
+		}
+	}
+	if !ok {
+		c.Inconclusive("fd-reuse: second Watcher's sentinel not delivered: " + hangClass(core.AllStacks()))
+		return
+	}
+	marks, _ := twin.KernelMarks(fsnotify.VerifInotifyFd(B))
+	l := B.WatchList()
+	writes := map[string]int{}
+	bmu.Lock()
+	for _, e := range bev {
+		if e.Op&fsnotify.Write != 0 {
+			writes[e.Name]++
+		}
+	}
+	bmu.Unlock()
+	var missing []string
+	for _, p := range bf {
+		if writes[p] == 0 {
+			missing = append(missing, filepath.Base(p))
+		}
+	}
+	c.Eval(1)
+	c.Distinct("fd-reuse", bufA, nA, k, sameNumber)
+	if len(marks) != len(bf)+1 || len(l) != len(bf)+1 || len(missing) > 0 {
+		c.Violate("other-watcher-lost-a-watch-when-one-was-closed", fmt.Sprintf("Watcher A (buffer %d, %d watched files) was closed while its reader was between two records (the next: rename of its watch #%d); Watcher B, created right after (same descriptor number: %v), added %d files + 1 directory and then has %d kernel marks, WatchList of %d, and delivered no Write for %v",
+			bufA, nA, k+1, sameNumber, len(bf), len(marks), len(l), missing), map[string]interface{}{"bufA": bufA, "nA": nA, "k": k})
 	}
 }
